@@ -89,6 +89,18 @@ def scan_module(repo: Repo, mod: ModuleInfo):
                 sc = f"{scope}.{child.name}" if scope != "<module>" else child.name
             elif isinstance(child, ast.ClassDef):
                 sc = f"{scope}.{child.name}" if scope != "<module>" else child.name
+            if isinstance(child, ast.Call) and isinstance(child.func, ast.Name) and child.func.id == "getattr" \
+                    and len(child.args) >= 2 and isinstance(child.args[0], ast.Name) and child.args[0].id in mod.imports:
+                # getattr(socket, 'SOL_SOCKET') / getattr(socket, name) with name running over the constant keys of a module
+                # table: the same host table as socket.SOL_SOCKET
+                base = repo.dotted(mod, child.args[0])
+                names = _constant_names(mod, node_root, child.args[1])
+                if base and names and (base in HOST_EXACT or (base + ".").startswith(HOST_PREFIXES)):
+                    for nm in names:
+                        yield (sc, f"{base}.{nm}", child.lineno)
+                    for extra in child.args[2:]:
+                        yield from visit(extra, sc)
+                    continue
             if isinstance(child, (ast.Attribute, ast.Name)) and isinstance(child.ctx, ast.Load):
                 dn = repo.dotted(mod, child)
                 if dn in PURE:
@@ -103,7 +115,39 @@ def scan_module(repo: Repo, mod: ModuleInfo):
                         continue        # do not descend into the chain again
             yield from visit(child, sc)
 
+    node_root = mod.tree
     yield from visit(mod.tree, "<module>")
+
+
+def _constant_names(mod: ModuleInfo, tree, arg):
+    """The constant strings an attribute-name argument can be: a literal, or a loop / comprehension variable running over the
+    keys (or `.items()`) of a module-level dict / tuple of string constants."""
+    if isinstance(arg, ast.Constant) and isinstance(arg.value, str):
+        return [arg.value]
+    if not isinstance(arg, ast.Name):
+        return None
+    for n in ast.walk(tree):
+        tgt = it = None
+        if isinstance(n, ast.For):
+            tgt, it = n.target, n.iter
+        elif isinstance(n, ast.comprehension):
+            tgt, it = n.target, n.iter
+        if tgt is None:
+            continue
+        first = tgt.elts[0] if isinstance(tgt, ast.Tuple) and tgt.elts else tgt
+        if not (isinstance(first, ast.Name) and first.id == arg.id):
+            continue
+        src = it
+        if isinstance(src, ast.Call) and isinstance(src.func, ast.Attribute) and src.func.attr in ("items", "keys") and not src.args:
+            src = src.func.value
+        if isinstance(src, ast.Name) and src.id in mod.constants:
+            c = mod.constants[src.id]
+            if isinstance(c, ast.Dict) and c.keys and all(isinstance(k, ast.Constant) and isinstance(k.value, str) for k in c.keys):
+                return [k.value for k in c.keys]
+            if isinstance(c, (ast.Tuple, ast.List)) and c.elts and all(isinstance(k, ast.Constant) and isinstance(k.value, str)
+                                                                       for k in c.elts):
+                return [k.value for k in c.elts]
+    return None
 
 
 def _unit_of(mod: ModuleInfo, scope: str) -> str:
